@@ -14,8 +14,14 @@ def wait(deferred):
 
 class TryCompute:
     depth = 0
+    # Incremented whenever an outermost attempt starts. A deferred value that turned out not to be
+    # ready during an attempt is not retried until the next one, otherwise a chain of N values, each
+    # depending on all the previous ones (e.g. addresses after N '.even's), takes 2**N steps to fail.
+    attempt = 0
 
     def __enter__(self):
+        if self.depth == 0:
+            self.attempt += 1
         self.depth += 1
         return self
 
@@ -158,6 +164,7 @@ class Deferred(BaseDeferred):
         self.fn = fn
         self.value = None
         self.settled = False
+        self.not_ready_attempt = None
         self.name = name or f"d{Deferred.next_instance_id}"
         Deferred.next_instance_id += 1
 
@@ -188,7 +195,13 @@ class Deferred(BaseDeferred):
         if self.settled:
             return self.value
         else:
-            self.value = self.fn()
+            if try_compute.depth > 0 and self.not_ready_attempt == try_compute.attempt:
+                raise NotReadyError()
+            try:
+                self.value = self.fn()
+            except NotReadyError:
+                self.not_ready_attempt = try_compute.attempt
+                raise
             self.settled = True
             return self.value
 
